@@ -199,11 +199,11 @@ def suiteTasks (P : Proj) (parent : Path) (inh : Bool) (parentBegin : Option Tas
     let testTs : List TaskSpec := tests.map (fun t =>
       { id := ⟨.test, p ++ [t.name]⟩, succ := testDep :: t.deps.map (fun dp => ⟨.test, dp⟩), compl := [] })
     let testIds := testTs.map (·.id)
-    let tdT : List TaskSpec := if init? then [{ id := ⟨.teardown, p⟩, succ := [], compl := testIds }] else []
+    let tdT : List TaskSpec := if init? then [{ id := ⟨.teardown, p⟩, succ := [], compl := initId :: testIds }] else []
     let subTs := suitesTasks P p (inh || d) (some beginId) subs
     let subEnds : List TaskId := subs.map (fun s => ⟨.end_, p ++ [s.name]⟩)
     let endT : TaskSpec :=
-      { id := ⟨.end_, p⟩, succ := testIds ++ (if init? then [⟨.teardown, p⟩] else []) ++ subEnds, compl := [] }
+      { id := ⟨.end_, p⟩, succ := beginId :: testIds ++ (if init? then [⟨.teardown, p⟩] else []) ++ subEnds, compl := [] }
     [beginT] ++ initT ++ testTs ++ tdT ++ subTs ++ [endT]
 def suitesTasks (P : Proj) (parent : Path) (inh : Bool) (parentBegin : Option TaskId) : List SuiteSpec → List TaskSpec
   | [] => []
